@@ -8,6 +8,11 @@ var verifHarnesses = map[string]func(){
 	"VerifC18FrameArbitrary": VerifC18FrameArbitrary,
 	"VerifC18FrameAlloc":     VerifC18FrameAlloc,
 	"VerifC02Journal":        VerifC02Journal,
+	"VerifC03Tx1":            VerifC03Tx1,
+	"VerifC03Two":            VerifC03Two,
+	"VerifC03Overwrite":      VerifC03Overwrite,
+	"VerifC03Restart":        VerifC03Restart,
+	"VerifC03Guards":         VerifC03Guards,
 	"VerifC04Cache":          VerifC04Cache,
 	"VerifC04CacheLock":      VerifC04CacheLock,
 }
